@@ -814,13 +814,33 @@ impl EquivalenceGroup {
     ) -> Result<Self> {
         let group = match join_type {
             JoinType::Inner | JoinType::Left | JoinType::Full | JoinType::Right => {
+                // Rows of a null-supplying side are padded with NULLs in the join
+                // output, so its expressions are no longer constant (nor equal to
+                // a literal) there.
+                let left_padded = matches!(join_type, JoinType::Right | JoinType::Full);
+                let right_padded = matches!(join_type, JoinType::Left | JoinType::Full);
+                let drop_constants = |cls: EquivalenceClass| {
+                    EquivalenceClass::new(
+                        cls.exprs
+                            .into_iter()
+                            .filter(|e| e.downcast_ref::<Literal>().is_none()),
+                    )
+                };
                 let mut result = Self::new(
-                    self.iter().cloned().chain(
-                        right_equivalences
-                            .iter()
-                            .map(|cls| cls.try_with_offset(left_size as _))
-                            .collect::<Result<Vec<_>>>()?,
-                    ),
+                    self.iter()
+                        .cloned()
+                        .map(|cls| if left_padded { drop_constants(cls) } else { cls })
+                        .chain(
+                            right_equivalences
+                                .iter()
+                                .map(|cls| cls.try_with_offset(left_size as _))
+                                .map(|cls| {
+                                    cls.map(|cls| {
+                                        if right_padded { drop_constants(cls) } else { cls }
+                                    })
+                                })
+                                .collect::<Result<Vec<_>>>()?,
+                        ),
                 );
                 // In we have an inner join, expressions in the "on" condition
                 // are equal in the resulting table.
